@@ -147,6 +147,7 @@ def replay (sc : Script) (evs : List TEv) : Except String State := do
       match step sc s (.deliver id) with
       | some s' => s := s'
       | none => throw s!"event {n}: not admitted: {explain sc s (.deliver id)}"
+    if s.unableToProceed then throw s!"event {n}: the model state is stuck (unable to proceed) although the build went on"
   if !s.done then throw s!"trace ends with {s.success.length}/{s.jobCount} jobs complete"
   if s.counters.any (·.2 != 0) then throw "trace ends with a non-zero counter"
   if !s.pending.isEmpty || !s.inflight.isEmpty then throw "trace ends with pending jobs"
@@ -284,6 +285,8 @@ def handle : Handler := fun s =>
     let outSame := (s.field1? "outcmp") == some (.atom "same")
     -- (a)
     let chk := checkScriptFull sc
+    let fresh := freshIds sc
+    let prog := checkProgress sc (findCert sc)
     -- (b)
     let rep := replay sc trace
     let repOk := match rep with | .ok _ => true | .error _ => false
@@ -300,7 +303,7 @@ def handle : Handler := fun s =>
     let unorderedRec := cs.filter (!·.recordedOrdered)
     let unforced := cs.filter (fun c => c.recordedOrdered && !isForced c)
     let corr := repOk && problems.isEmpty && ended
-    let oracle := chk.ok && repOk && unorderedRec.isEmpty && unforced.isEmpty
+    let oracle := fresh && prog && chk.ok && repOk && unorderedRec.isEmpty && unforced.isEmpty
     let nJobs := counts.getD 0 0
     let nSpawned := counts.getD 1 0
     -- the one known shape (finding F-C02-1): GlyphOrder rewrites IR glyph X while `handle_success(Glyph X)` reads it on the
@@ -315,6 +318,8 @@ def handle : Handler := fun s =>
     let bad := unorderedRec ++ unforced
     let cls :=
       if !repOk then "replay"
+      else if !fresh then "freshIds"
+      else if !prog then "checkProgress"
       else if chk.ok && !bad.isEmpty && bad.all isGlyphOrderRace then
         (if bad.any (fun c => match c.a, c.b with | .job _, .job _ => true | _, _ => false) then "glyphorder-vs-beglyph-unordered" else "glyphorder-vs-deliver-irglyph")
       else if !unorderedRec.isEmpty then "conflict-unordered-in-trace"
@@ -325,6 +330,8 @@ def handle : Handler := fun s =>
     let showC (c : Conflict) := s!"{c.item.show} accessed by {c.a.show} and {c.b.show}"
     let detail :=
       (match rep with | .error e => s!"replay: {e}; " | .ok _ => "") ++
+      (if fresh then "" else "freshIds: an id is inserted twice in the script; ") ++
+      (if prog then "" else "checkProgress: no rank/resolver certificate found (dependency cycle or unresolved Unknown); ") ++
       (if chk.ok then "" else s!"checkScript: {chk.why}; ") ++
       (if unorderedRec.isEmpty then "" else s!"unordered in the recorded trace ({unorderedRec.length}): {"; ".intercalate ((unorderedRec.take 3).map showC)}; ") ++
       (if unforced.isEmpty then "" else s!"ordered in this trace but not forced ({unforced.length}): {"; ".intercalate ((unforced.take 3).map showC)}; ") ++
